@@ -115,6 +115,11 @@ struct GateState {
     forced: u32,
     /// who held the turn, hand-over by hand-over: the interleaving that actually took place
     trace: Vec<u8>,
+    /// which callers have used the lock at an address (bit per caller), and the coin that decides
+    /// whether a `try_lock` on a lock another caller uses finds it taken
+    lock_users: std::collections::HashMap<usize, u32>,
+    coin: u64,
+    injected: u32,
     /// consecutive "found the lock taken" hand-overs with no ordinary scheduling point in between
     /// (an ordinary point means somebody got past a primitive, i.e. progress)
     stalled: u32,
@@ -135,7 +140,7 @@ impl Gate {
     /// `n` simulated caller threads (2..=26), of which exactly one is runnable at any time.
     pub fn new_n(order: &[u8], n: usize) -> std::sync::Arc<Gate> {
         let g = Gate {
-            m: std::sync::Mutex::new(GateState { turn: None, order: order.iter().copied().collect(), done: vec![false; n], blocked: vec![false; n], switches: 0, epoch: 0, forced: 0, trace: vec![], stalled: 0 }),
+            m: std::sync::Mutex::new(GateState { turn: None, order: order.iter().copied().collect(), done: vec![false; n], blocked: vec![false; n], switches: 0, epoch: 0, forced: 0, trace: vec![], stalled: 0, lock_users: Default::default(), coin: order.iter().fold(0x9E37_79B9_7F4A_7C15u64, |a, b| (a ^ *b as u64).wrapping_mul(0x100_0000_01B3)), injected: 0 }),
             cv: std::sync::Condvar::new(),
         };
         {
@@ -231,6 +236,28 @@ impl Gate {
         self.m.lock().unwrap().blocked[me as usize] = false;
         Ok(())
     }
+    fn touched(&self, me: u8, addr: usize) {
+        *self.m.lock().unwrap().lock_users.entry(addr).or_insert(0) |= 1 << me;
+    }
+    /// One time in three a `try_*` finds a lock taken that another caller of this operation uses too.
+    fn contended(&self, me: u8, addr: usize) -> bool {
+        let mut st = self.m.lock().unwrap();
+        let others = st.lock_users.get(&addr).copied().unwrap_or(0) & !(1u32 << me);
+        if others == 0 {
+            return false;
+        }
+        st.coin ^= st.coin << 13;
+        st.coin ^= st.coin >> 7;
+        st.coin ^= st.coin << 17;
+        let hit = st.coin % 3 == 0;
+        if hit {
+            st.injected += 1;
+        }
+        hit
+    }
+    pub fn injected(&self) -> u32 {
+        self.m.lock().unwrap().injected
+    }
     pub fn forced(&self) -> u32 {
         self.m.lock().unwrap().forced
     }
@@ -269,7 +296,19 @@ pub fn install_sched_hooks() {
             }
         }
     }
+    fn touched(addr: usize) {
+        if let Some((g, me)) = GATE.with(|c| c.borrow().clone()) {
+            g.touched(me, addr);
+        }
+    }
+    fn contended(addr: usize) -> bool {
+        match GATE.with(|c| c.borrow().clone()) {
+            Some((g, me)) => g.contended(me, addr),
+            None => false,
+        }
+    }
     simstd::simhook::install(point, blocked);
+    simstd::simhook::install_contention(touched, contended);
 }
 
 thread_local! {
